@@ -184,7 +184,22 @@ def fd_scenario(chk, label, kind, outcomes, explicit):
         d = cells(V.out["draw"])[0]
         return hyps + [idx >= 0, idx < len(outs)], z3.And(*[z3.Implies(idx == j, d == z3.RealVal(repr(float(outs[j]))) if not z3.is_int(d) else (d == int(outs[j]) if float(outs[j]) == int(outs[j]) else z3.BoolVal(False)))
                                                                 for j in range(len(outs))])
-    obs.append(Obligation(f"finite_discrete_gibbs_kernel[{label}]: the returned value is the outcome with the drawn index", [enc], g_draw, signature=f"fd:{label}:draw", timeout_s=120))
+    def replay_draw(ob, model, rng):
+        """the real kernel with the real categorical sampler (recorded): over 24 keys the returned value must be the outcome at the drawn index"""
+        st = iface.update_state({k_: v_ for k_, v_ in free0.items()}, full0)
+        for sd in range(24):
+            with stubs.spy() as log:
+                with stub_categorical():
+                    pos = kern._transition_fn(jax.random.PRNGKey(sd), st)
+            idx = [int(np.asarray(o[0])) for (nm, a_, o) in log if nm == "categorical"]
+            if len(idx) != 1:
+                continue
+            got = float(np.asarray(pos["k"]))
+            if got != float(outs[idx[0]]):
+                return dict(reproduced=True, inputs=dict(key=[0, sd], outcomes=outs), observed=dict(drawn_index=idx[0], returned_value=got, outcome_at_index=float(outs[idx[0]])),
+                            note="the Gibbs kernel returns a value that is not the outcome it drew")
+        return dict(reproduced=False, note="returned value = outcome at the drawn index for 24 keys")
+    obs.append(Obligation(f"finite_discrete_gibbs_kernel[{label}]: the returned value is the outcome with the drawn index", [enc], g_draw, signature=f"fd:{label}:draw", timeout_s=120, replay=replay_draw))
     return obs, enc
 
 
